@@ -1,7 +1,7 @@
 (* Proofs about the step-size controllers of Model/StepCtl.v, for EVERY error-estimate function. *)
 From Coq Require Import QArith Qabs Lqa List Bool Lia.
 Import ListNotations.
-From RV Require Import Gen.StepCtlConsts Model.StepCtl.
+From RV Require Import Gen.StepCtlConsts Model.StepCtl Gen.StepCtlGen.
 Local Open Scope Q_scope.
 
 (* ------------------------------------------------------------------ basics ----------------- *)
@@ -520,4 +520,52 @@ Proof.
       destruct tr1 as [|e1 tr1]; cbn [app] in E; inversion E; subst.
       * cbn [e_pos]. change (acc_sum []) with 0. lra.
       * rewrite acc_sum_cons. cbn [e_acc e_dt]. rewrite (IH _ _ _ _ _ Hr tr1 e tr2 eq_refl). lra.
+Qed.
+
+(* ================================================================== the loops unfold to the GENERATED step functions == *)
+(* Gen/StepCtlGen.v is produced by tx/stepctlgen.py from the loop bodies of the three controllers (every comparison, min / max /
+   min_abs, update formula and the order of the tests).  The loops all theorems above are about are exactly the iteration of
+   those generated steps: *)
+Ltac split_ifs := repeat match goal with |- context [if ?c then _ else _] => destruct c eqn:? end.
+
+Lemma tdvp_loop_gen (est : estimate) target f it g x :
+  tdvp_loop (S f) est target it g x =
+  let dt := tdvp_dt_gen g x target in
+  let ev acc := {| e_dt := dt; e_acc := acc; e_pos := x; e_guess := g |} in
+  match tdvp_step_gen g x target dt (est it x dt) with
+  | Reject g' => consE (ev false) (tdvp_loop f est target (S it) g' x)
+  | Sub g' x' => consE (ev true) (tdvp_loop f est target (S it) g' x')
+  | Final gf => Some ([ev true], gf)
+  end.
+Proof.
+  cbn [tdvp_loop]. unfold tdvp_dt_gen, tdvp_step_gen, tdvp_clamp. cbv zeta.
+  set (dt := min_abs g (target - x)). set (p0 := est it x dt). split_ifs; try reflexivity; try congruence.
+Qed.
+
+Lemma pc_loop_gen (est : estimate) f it g r :
+  pc_loop (S f) est it g r =
+  let dt := pc_dt_gen g r r in
+  let ev acc := {| e_dt := dt; e_acc := acc; e_pos := r; e_guess := g |} in
+  match pc_step_gen g r r dt (est it r dt) with
+  | Reject g' => consE (ev false) (pc_loop f est (S it) g' r)
+  | Sub g' r' => consE (ev true) (pc_loop f est (S it) g' r')
+  | Final gf => Some ([ev true], gf)
+  end.
+Proof.
+  cbn [pc_loop]. unfold pc_dt_gen, pc_step_gen. cbv zeta.
+  set (dt := min_abs g r). set (p0 := est it r dt). split_ifs; try reflexivity; try congruence.
+Qed.
+
+Lemma tdrk_loop_gen (est : estimate) target f it g x :
+  tdrk_loop (S f) est target it g x =
+  let dt := tdrk_dt_gen g x target in
+  let ev acc := {| e_dt := dt; e_acc := acc; e_pos := x; e_guess := g |} in
+  match tdrk_step_gen g x target dt (est it x dt) with
+  | Reject g' => consE (ev false) (tdrk_loop f est target (S it) g' x)
+  | Sub g' x' => consE (ev true) (tdrk_loop f est target (S it) g' x')
+  | Final gf => Some ([ev true], gf)
+  end.
+Proof.
+  cbn [tdrk_loop]. unfold tdrk_dt_gen, tdrk_step_gen. cbv zeta.
+  set (dt := min_abs g (target - x)). set (p0 := est it x dt). split_ifs; try reflexivity; try congruence.
 Qed.
